@@ -16,7 +16,7 @@ func init() {
 	Register(&Rule{ID: "COMMIT", Props: []string{"C12"}, Min: 2,
 		Doc: "commit-point discipline in Insert, Delete and everything they call: along every path, after the first tree-visible effect (store to a Mast field through the receiver; " +
 			"write to a node that is not fresh — ToMut returns the live node when it is already unshared; call of an effectful callee) there is no call that may return a non-nil error " +
-			"(in-repo function with an error-carrying return, or a user callback returning error) whose result is used; a finding is keyed by (function, fallible callee).",
+			"(a user callback or store operation returning error; in-repo callees are looked into with what precedes the call as their context) whose result is used; a finding is keyed by (entry point, failing step, kinds of state already changed) and so does not depend on how the code is cut into helpers.",
 		Run: runCOMMIT})
 	Register(&Rule{ID: "PURITY", Props: []string{"C01", "C12"}, Min: 10,
 		Doc: "from each read-only entry point (Get, Iter, SeekIter, Size, Height, IsDirty, BranchFactor, DiffIter, DiffLinks, StartDiff, NextEntry, Cursor and the Cursor methods) " +
@@ -87,102 +87,165 @@ func fallible(c *Ctx, ci ssa.CallInstruction) (bool, string) {
 
 func runCOMMIT(c *Ctx) {
 	P := c.P
-	mutators := c.Entries("(*Mast).Insert", "(*Mast).Delete")
-	if len(mutators) == 0 {
+	entries := c.Entries("(*Mast).Insert", "(*Mast).Delete")
+	if len(entries) == 0 {
 		return
 	}
-	reach := c.Facts.Reach(mutators...)
-	var fns []*ssa.Function
-	for fn := range reach {
-		fns = append(fns, fn)
+	// reachability inside one function without taking a loop's back edge
+	acyclic := func(a, b ssa.Instruction) bool {
+		if a.Block() == b.Block() {
+			return ir.InstrIndex(a) < ir.InstrIndex(b)
+		}
+		seen := map[*ssa.BasicBlock]bool{}
+		var walk func(x *ssa.BasicBlock) bool
+		walk = func(x *ssa.BasicBlock) bool {
+			if x == b.Block() {
+				return true
+			}
+			if seen[x] {
+				return false
+			}
+			seen[x] = true
+			for _, s := range x.Succs {
+				if s.Dominates(x) {
+					continue // back edge
+				}
+				if walk(s) {
+					return true
+				}
+			}
+			return false
+		}
+		return walk(a.Block())
 	}
-	sort.Slice(fns, func(i, j int) bool { return fns[i].Pos() < fns[j].Pos() })
-	for _, fn := range fns {
-		if ir.ErrorResultIndex(fn.Signature) < 0 {
-			continue // cannot report a failure, nothing to roll back to
+	type ctxKinds struct{ first, loop map[string]bool }
+	keyOf := func(k ctxKinds) string {
+		s := kindKey(k.first)
+		extra := map[string]bool{}
+		for x := range k.loop {
+			if !k.first[x] {
+				extra[x] = true
+			}
 		}
-		effs := c.Facts.EffectsIn(fn)
-		if len(effs) == 0 {
-			c.OK(P.Pos(fn.Pos()), "no tree-visible effect in "+ir.FuncName(fn), "pure with respect to the tree", true)
-			continue
+		if len(extra) > 0 {
+			s += " | on a later pass of a loop also: " + kindKey(extra)
 		}
-		nF := 0
+		return s
+	}
+	for _, entry := range entries {
 		type hit struct {
-			eff  Effect
+			fn   *ssa.Function
 			call ssa.CallInstruction
+			eff  Effect
 		}
 		found := map[string]hit{}
-		kindsOf := map[string]map[string]bool{}
-		for _, ci := range CallsOf(fn) {
-			ok, name := fallible(c, ci)
-			if !ok {
-				continue
+		visited := map[string]bool{}
+		nLeaves := 0
+		var walk func(fn *ssa.Function, inh ctxKinds, depth int)
+		walk = func(fn *ssa.Function, inh ctxKinds, depth int) {
+			key := ir.FuncName(fn) + "|" + keyOf(inh)
+			if visited[key] || depth > 8 {
+				return
 			}
-			nF++
-			var first *Effect
-			for i := range effs {
-				e := effs[i]
-				if e.Instr == ssa.Instruction(ci) {
-					// the call itself is effectful: a second execution of it (loop)
-					// follows its own effect
-					if ir.InstrReaches(ci, ci) && inCycle(ci.Block()) {
-						first = &effs[i]
-						break
-					}
+			visited[key] = true
+			effs := c.Facts.EffectsIn(fn)
+			for _, ci := range CallsOf(fn) {
+				ok, name := fallible(c, ci)
+				if !ok {
 					continue
 				}
-				if ir.InstrReaches(e.Instr, ci) {
-					first = &effs[i]
-					break
+				// what may already have been changed when this call fails: on a first pass, and on later passes of a loop
+				before := ctxKinds{map[string]bool{}, map[string]bool{}}
+				for k := range inh.first {
+					before.first[k] = true
 				}
-			}
-			if first == nil {
-				c.OK(P.InstrPos(ci), fmt.Sprintf("fallible call %s in %s", name, ir.FuncName(fn)), "no tree-visible effect can precede it", false)
-				continue
-			}
-			if _, dup := found[name]; !dup {
-				found[name] = hit{*first, ci}
-			}
-			// what may already have been changed when this call fails (part of the finding's identity: a
-			// reordering that lets a *further* kind of change precede the call is a different finding)
-			if kindsOf[name] == nil {
-				kindsOf[name] = map[string]bool{}
-			}
-			for i := range effs {
-				e := effs[i]
-				if e.Instr == ssa.Instruction(ci) {
-					if !(ir.InstrReaches(ci, ci) && inCycle(ci.Block())) {
+				for k := range inh.loop {
+					before.loop[k] = true
+				}
+				var first *Effect
+				for i := range effs {
+					e := effs[i]
+					if e.Instr == ssa.Instruction(ci) {
+						if ir.InstrReaches(ci, ci) && inCycle(ci.Block()) {
+							for _, k := range e.Kinds {
+								before.loop[k] = true
+							}
+							if first == nil {
+								first = &effs[i]
+							}
+						}
 						continue
 					}
-				} else if !ir.InstrReaches(e.Instr, ci) {
+					if !ir.InstrReaches(e.Instr, ci) {
+						continue
+					}
+					if first == nil {
+						first = &effs[i]
+					}
+					for _, k := range e.Kinds {
+						if acyclic(e.Instr, ci) {
+							before.first[k] = true
+						} else {
+							before.loop[k] = true
+						}
+					}
+				}
+				descended := false
+				if ext := c.Facts.External(ci); !strings.HasPrefix(ext, "callback:") {
+					for _, g := range c.Facts.Callees(ci) {
+						if g.Blocks != nil && isOwn(P, g) && c.Facts.MayFail[g] {
+							walk(g, before, depth+1)
+							descended = true
+						}
+					}
+				}
+				if descended {
 					continue
 				}
-				for _, k := range e.Kinds {
-					kindsOf[name][k] = true
+				nLeaves++
+				name = strings.Replace(strings.Replace(name, "callback param:", "callback ", 1), "callback param ", "callback ", 1)
+				if len(before.first) == 0 && len(before.loop) == 0 {
+					c.OK(P.InstrPos(ci), fmt.Sprintf("fallible step %s in %s (from %s)", name, ir.FuncName(fn), entry.Name()), "no tree-visible effect can precede it", false)
+					continue
+				}
+				k := name + " {" + keyOf(before) + "}"
+				if _, dup := found[k]; !dup {
+					h := hit{fn: fn, call: ci}
+					if first != nil {
+						h.eff = *first
+					} else {
+						h.eff = Effect{Instr: ci, Desc: "effects of the callers (" + keyOf(inh) + ")"}
+					}
+					found[k] = h
 				}
 			}
 		}
-		var names []string
-		for n := range found {
-			names = append(names, n)
+		walk(entry, ctxKinds{map[string]bool{}, map[string]bool{}}, 0)
+		var keys []string
+		for k := range found {
+			keys = append(keys, k)
 		}
-		sort.Strings(names)
-		for _, n := range names {
-			h := found[n]
-			var ks []string
-			for k := range kindsOf[n] {
-				ks = append(ks, strings.TrimPrefix(k, "Mast."))
-			}
-			sort.Strings(ks)
-			c.Violation(fn, P.InstrPos(h.call), "effect before fallible "+n+" {"+strings.Join(ks, ",")+"}",
-				fmt.Sprintf("%s can fail after the tree was already changed (%s at %s): on that error the caller sees a failed operation but a modified tree (contents/size/height no longer those before the call)",
-					n, h.eff.Desc, P.InstrPos(h.eff.Instr)),
+		sort.Strings(keys)
+		for _, k := range keys {
+			h := found[k]
+			c.Violation(entry, P.InstrPos(h.call), "effect before fallible "+k,
+				fmt.Sprintf("in %s, %s can fail after the tree was already changed (%s at %s): on that error the caller of %s sees a failed operation but a modified tree (contents/size/height no longer those before the call)",
+					ir.FuncName(h.fn), strings.SplitN(k, " {", 2)[0], h.eff.Desc, P.InstrPos(h.eff.Instr), entry.Name()),
 				"earliest effect: "+h.eff.Desc+" at "+P.InstrPos(h.eff.Instr))
 		}
-		if nF == 0 {
-			c.OK(P.Pos(fn.Pos()), "effects in "+ir.FuncName(fn), "no fallible call in this function", false)
+		if nLeaves == 0 {
+			c.Undecided(entry, P.Pos(entry.Pos()), "no fallible step found", "nothing reachable from "+entry.Name()+" can fail: the rule's notion of a fallible step does not match the code")
 		}
 	}
+}
+
+func kindKey(m map[string]bool) string {
+	var ks []string
+	for k := range m {
+		ks = append(ks, strings.TrimPrefix(k, "Mast."))
+	}
+	sort.Strings(ks)
+	return strings.Join(ks, ",")
 }
 
 func inCycle(b *ssa.BasicBlock) bool {
